@@ -352,6 +352,11 @@ func genScenario(t *rapid.T, o genOpts) *scn.Scenario {
 		sc.Phases = append(sc.Phases, ph)
 	}
 	sc.PreShutdownSleepUs = rapid.SampledFrom([]int{0, 0, 0, 0, 200, 3000, 12000, 25000}).Draw(t, "pre_shutdown_sleep_us")
+	if sc.Sched == "free" && rapid.IntRange(0, 29).Draw(t, "long_silence") == 0 {
+		// two seconds of silence before Shutdown: a free-running writer must have handed everything over by then
+		// (bounded liveness, see scn.Judge; normal latency is one 10 ms writer pause)
+		sc.PreShutdownSleepUs = scn.SilenceUs
+	}
 	if o.stutter {
 		sc.PreShutdownSleepUs = 0
 		sc.Stutter = &scn.Stutter{
@@ -470,6 +475,7 @@ func record(sc *scn.Scenario, rep *scn.Report, prefix string) {
 	add(twins, "same_text_not_identical_drawn")
 	add(len(rep.Internal) > 0, "logger_internal_lines_seen")
 	add(sc.PreShutdownSleepUs > 0, "shutdown_delayed")
+	add(sc.PreShutdownSleepUs >= scn.SilenceUs && sc.Sched == "free", "free_writer_two_seconds_of_silence_before_shutdown")
 	stats.Case(string(raw), nontrivial, cl...)
 	kind := prefix + "scenario"
 	if stats.WantSample(kind) && len(raw) < 1500 {
